@@ -25,6 +25,7 @@ THEOREMS = [
     "C22_outcome_sound",
     "C22_resolution_terminates",
     "C22_neutral_after_cancellations",
+    "C22_lock_free_after_all_ended",
     "C22_concurrent",
     "C22_sequential",
     "C22_resolution_terminates_sequential",
@@ -55,7 +56,8 @@ EXPLANATION = (
     "value is a cache hit like any other. Schedules include cancel actions (CancelledError thrown into an invocation "
     "suspended in an async factory at any depth of its chain, or queued on the scope lock), so all of the above holds "
     "after any mix of completions, errors and cancellations, and whenever no invocation is inside a scope _resolving, "
-    "the depth and the scoped cache are neutral (C22_neutral_after_cancellations); the runs cancel invocations at "
+    "the depth and the scoped cache are neutral (C22_neutral_after_cancellations), and once every invocation has ended "
+    "the lock is free and its queue empty (C22_lock_free_after_all_ended); the runs cancel invocations at "
     "those points, end workflow runs with cancel_run while a step is suspended in a resource factory and run the same "
     "workflow instance again. The same statements for serial schedules of "
     "the unlocked code (C22_sequential), and three refutations of the unlocked code by concrete interleavings (false "
@@ -79,9 +81,7 @@ ASSUMPTIONS = [
     "cancellation is modelled where a task can receive it at a quiescent point: suspended at the await of an async "
     "factory (CancelledError then unwinds every _get activation like an exception) or queued on the scope lock; that "
     "asyncio.Lock passes a lock on when a woken waiter is cancelled, and that the engine cancels all workers of a run "
-    "before any of them runs again (cleanup_tasks), is exercised by the correspondence runs, not proved; that the lock "
-    "itself is free once every invocation has ended is checked on the runs (state field lk, rule "
-    "C22/stale_resolution_state[lock]), not stated as a theorem; a run ended by the workflow timeout goes through the "
+    "before any of them runs again (cleanup_tasks), is exercised by the correspondence runs, not proved; a run ended by the workflow timeout goes through the "
     "same cleanup_tasks as cancel_run and is not driven separately",
     "one descriptor per resource name; ResourceManager.set() by hand and _ResourceConfig (no dependencies, always "
     "cached) are outside the model",
